@@ -766,6 +766,14 @@ void SolveResultRegistry::AddSolveResults(
 }
 
 void BasicSolver::UseOptionFile(const SolverOption &, fmt::StringRef value) {
+  // An option file may name another one, but a file that (directly or
+  // through others) names itself would recurse until the stack overflows.
+  static int nesting = 0;
+  struct Nesting { Nesting() { ++nesting; } ~Nesting() { --nesting; } } guard;
+  if (nesting > 32)
+    MP_RAISE(fmt::format(
+               "Option files nested too deeply (recursive inclusion?): '{}'",
+               value));
   option_file_save_ = value;
   std::ifstream ifs(value);
   if (ifs.good())
